@@ -23,6 +23,25 @@ BitAnd(a, b) == IF a = 0 \/ b = 0 THEN 0
                 ELSE 2 * BitAnd(a \div 2, b \div 2) + (IF a % 2 = 1 /\ b % 2 = 1 THEN 1 ELSE 0)
 
 -----------------------------------------------------------------------------
+\* STRING fields are UTF-8 (RFC 3629: no overlong forms, no surrogates, at most U+10FFFF); a name that is not
+\* valid UTF-8 is out of contract (the decoder reports an error value).
+RECURSIVE Utf8From(_, _)
+Utf8From(b, i) ==
+  IF i > Len(b) THEN TRUE
+  ELSE LET c == b[i]
+           cont(k) == i + k <= Len(b) /\ \A j \in 1..k : b[i + j] \in 128..191
+       IN CASE c <= 127 -> Utf8From(b, i + 1)
+            [] c \in 194..223 -> cont(1) /\ Utf8From(b, i + 2)
+            [] c = 224 -> cont(2) /\ b[i + 1] >= 160 /\ Utf8From(b, i + 3)
+            [] c \in 225..236 \cup {238, 239} -> cont(2) /\ Utf8From(b, i + 3)
+            [] c = 237 -> cont(2) /\ b[i + 1] <= 159 /\ Utf8From(b, i + 3)
+            [] c = 240 -> cont(3) /\ b[i + 1] >= 144 /\ Utf8From(b, i + 4)
+            [] c \in 241..243 -> cont(3) /\ Utf8From(b, i + 4)
+            [] c = 244 -> cont(3) /\ b[i + 1] <= 143 /\ Utf8From(b, i + 4)
+            [] OTHER -> FALSE
+ValidUtf8(b) == Utf8From(b, 1)
+
+-----------------------------------------------------------------------------
 \* Initial parser state, after the 128-byte header has been decoded.
 InitPS(h) ==
   LET nf == h.nframes IN
@@ -68,7 +87,8 @@ BppOf(ps) == Bpp(ps.hdr.depth)
 PixelsWellSized(ps, px) == \A i \in DOMAIN px : Len(px[i]) = BppOf(ps)
 
 DoLayer(ps, c) ==
-  IF c.ltype \notin LayerTypes THEN Must(ps, "layer_type")
+  IF ~ValidUtf8(c.name) THEN Soft(ps, "invalid_utf8")
+  ELSE IF c.ltype \notin LayerTypes THEN Must(ps, "layer_type")
   ELSE IF c.blend \notin BlendModes THEN Must(ps, "blend_mode")
   ELSE [ps EXCEPT
          !.layers = Append(@, [flags |-> c.flags % (LayerFlagMask + 1), ltype |-> c.ltype, level |-> c.level,
@@ -102,7 +122,8 @@ DoCel(ps, c) ==
 
 TagOf(t) == [from |-> t.from, to |-> t.to, dir |-> t.dir, repeat |-> t.repeat, name |-> t.name, ud |-> None]
 DoTags(ps, c) ==
-  IF \E i \in DOMAIN c.tags : c.tags[i].dir \notin AnimDirs THEN Must(ps, "anim_direction")
+  IF \E i \in DOMAIN c.tags : ~ValidUtf8(c.tags[i].name) THEN Soft(ps, "invalid_utf8")
+  ELSE IF \E i \in DOMAIN c.tags : c.tags[i].dir \notin AnimDirs THEN Must(ps, "anim_direction")
   ELSE IF ps.frame # 0 THEN ps                       \* named deviation: tags outside frame 0 are ignored
   ELSE [ps EXCEPT !.tags = Some([i \in DOMAIN c.tags |-> TagOf(c.tags[i])]), !.ctx = <<"tag", 0>>]
 
@@ -111,6 +132,7 @@ KeyOf(k, flags) ==
    s9 |-> IF HasBit(flags, 1) THEN Some(k.s9) ELSE None,
    pivot |-> IF HasBit(flags, 2) THEN Some(k.pivot) ELSE None]
 DoSlice(ps, c) ==
+  IF ~ValidUtf8(c.name) THEN Soft(ps, "invalid_utf8") ELSE
   [ps EXCEPT !.slices = Append(@, [name |-> c.name, keys |-> [i \in DOMAIN c.keys |-> KeyOf(c.keys[i], c.flags)], ud |-> None]),
              !.ctx = <<"slice", Len(ps.slices)>>]
 
@@ -118,7 +140,8 @@ DoSlice(ps, c) ==
 UDOf(c) == [text |-> c.text, color |-> c.color]
 DoUserData(ps, c) ==
   LET u == Some(UDOf(c)) IN
-  CASE ps.ctx = <<>> -> Soft(ps, "dangling_user_data")
+  CASE Len(c.text) = 1 /\ ~ValidUtf8(c.text[1]) -> Soft(ps, "invalid_utf8")
+    [] ps.ctx = <<>> -> Soft(ps, "dangling_user_data")
     [] ps.ctx[1] = "layer" -> [ps EXCEPT !.layers[ps.ctx[2] + 1].ud = u]
     [] ps.ctx[1] = "cel" -> LET i == CelIdx(ps.cels, ps.ctx[2], ps.ctx[3]) IN [ps EXCEPT !.cels[i].ud = u]
     [] ps.ctx[1] = "slice" -> [ps EXCEPT !.slices[ps.ctx[2] + 1].ud = u]
@@ -132,6 +155,7 @@ DoPalette(ps, c) ==
   LET n == c.last - c.first + 1 IN
   IF c.last < c.first THEN Soft(ps, "palette_range")
   ELSE IF Len(c.entries) < n THEN Soft(ps, "palette_short")
+  ELSE IF \E i \in 1..n : c.entries[i].flags % 2 = 1 /\ ~ValidUtf8(c.entries[i].name) THEN Soft(ps, "invalid_utf8")
   ELSE [ps EXCEPT !.pal = [origin |-> "new",
           m |-> [i \in c.first..c.last |->
                    LET e == c.entries[i - c.first + 1] IN
@@ -174,10 +198,12 @@ ReplaceById(seq, e) == SelectSeq(seq, LAMBDA x : x.id # e.id) \o <<e>>
 RECURSIVE AddAll(_, _, _)
 AddAll(seq, es, i) == IF i > Len(es) THEN seq ELSE AddAll(ReplaceById(seq, es[i]), es, i + 1)
 DoExtFiles(ps, c) ==
+  IF \E i \in DOMAIN c.entries : ~ValidUtf8(c.entries[i].name) THEN Soft(ps, "invalid_utf8") ELSE
   [ps EXCEPT !.extfiles = AddAll(@, [i \in DOMAIN c.entries |-> [id |-> c.entries[i].id, name |-> c.entries[i].name]], 1)]
 
 DoTileset(ps, c) ==
-  IF HasBit(c.flags, 2) /\ ~PixelsWellSized(ps, c.px) THEN Soft(ps, "pixel_bytes")
+  IF ~ValidUtf8(c.name) THEN Soft(ps, "invalid_utf8")
+  ELSE IF HasBit(c.flags, 2) /\ ~PixelsWellSized(ps, c.px) THEN Soft(ps, "pixel_bytes")
   ELSE [ps EXCEPT !.tilesets = ReplaceById(@,
           [id |-> c.id, count |-> c.count, tw |-> c.tw, th |-> c.th, base |-> c.base, name |-> c.name,
            empty0 |-> HasBit(c.flags, 4),
